@@ -436,7 +436,7 @@ func (d *rtDriver) newPlan(snap *RuntimeSnapshot) *roundPlan {
 		"honest", "honest", "honest", "honest", "honest", "honest", "honest",
 		"discrepancy", "discrepancy", "discrepancy",
 		"failure", "failure",
-		"lower-rank", "lower-rank",
+		"lower-rank", "lower-rank", "two-schedulers",
 		"scheduler-only", "too-few", "workers-without-scheduler", "bad-in-messages", "idle",
 	})
 	pl.kind = kind
@@ -544,6 +544,23 @@ func (d *rtDriver) newPlan(snap *RuntimeSnapshot) *roundPlan {
 				pc.intent = "rt:worse-rank"
 				pl.waves = append(pl.waves, []plannedCommit{pc})
 			}
+		}
+	case "two-schedulers":
+		// The scheduler rank improves twice inside one block (rank 1, then rank 0), which re-arms
+		// the round timer to the same height; afterwards nothing (or too little) arrives, so the
+		// round must end through the timer.
+		if s1 == nil || s1 == s0 {
+			pl.kind = "honest"
+			pl.waves = [][]plannedCommit{{vote(s0, s0, "A")}}
+			break
+		}
+		first := []plannedCommit{vote(s1, s1, "A"), vote(s0, s0, "A")}
+		if ws := others(s0); len(ws) > 1 && rng.IntN(2) == 0 {
+			first = append(first, vote(ws[0], s0, "A"))
+		}
+		pl.waves = [][]plannedCommit{first}
+		for i := int64(0); i < rt.Executor.RoundTimeout+2; i++ {
+			pl.waves = append(pl.waves, nil)
 		}
 	case "scheduler-only":
 		pl.waves = [][]plannedCommit{{vote(s0, s0, "A")}}
